@@ -68,6 +68,12 @@ CHECKS = {
         "Streams identified by value tuples; three known findings (O<n> name extending a label, label on a non-leaf user node, ambiguous suffix) excluded by input-only predicates.",
         "DESIGN.md section 5 C10",
     ),
+    "C17": (
+        "Hypothesis @given polylines (targeted on deviation); geometric oracle (point-to-polyline distance, one-sided bound) written in the harness",
+        "Generated-input search (3k+400 quick / 100k+10k thorough): clean_composite_curve must return a subsequence covering the whole non-flat extent with every dropped point within 1e-6 of the kept polyline; get_piecewise_data_points must keep both ends and the original order, leave every original point within the requested deviation and respect the hot/cold one-sided bound of a tenth of it.",
+        "Three known findings (neighbour-by-neighbour drift; one-sided bound not enforced for <= 10 breakpoints; SLSQP refinement returns unordered points) are excluded by input/reference-only predicates, which removes about half of the generated cases from the failing assertions only.",
+        "DESIGN.md section 5 C17",
+    ),
     "C19": (
         "two Hypothesis RuleBasedStateMachines (stream setters; collection operations) against explicit models",
         "Stateful model-based search (2 x 1.5k machines x <=12 steps quick / 2 x 50k x <=30 thorough): stream invariants (CP x span = duty, min <= max, bounds = supply/target, type and shift direction follow the temperatures, htr = 1/htc) after every setter incl. flips and equality; collection vs model list (identity-exact membership, len, iteration = permutation monotone in the sort key, index, contains, remove of absent raises KeyError, concatenation keeps both operands, replace keeps all members).",
